@@ -862,23 +862,7 @@ func TestPrecompileSweep(t *testing.T) {
 	p := h.NewPlain(t, "C09", "presweep")
 	var rc Case
 	if h.ReplayCase("C09", "presweep", &rc) {
-		// same output protocol as the replay mode of h.Check
-		res, d, err := runInWorker(rc)
-		if err != nil {
-			harnessFatal(err.Error())
-		}
-		if d != nil {
-			res.Fails = []Fail{{Sig: d.sig, Msg: d.msg}}
-		}
-		for _, f := range res.Fails {
-			msg := strings.ReplaceAll(f.Msg, "\n", " | ")
-			if h.IsKnownFor("C09", f.Sig) {
-				fmt.Printf("REPLAY-KNOWN sig=%s msg=%s\n", f.Sig, clip(msg, 500))
-				continue
-			}
-			fmt.Printf("REPLAY-VIOLATION sig=%s msg=%s\n", f.Sig, clip(msg, 500))
-			t.Fatalf("replayed case violates C09: [%s] %s", f.Sig, f.Msg)
-		}
+		replayPlain(t, rc)
 		return
 	}
 	if h.Replaying() {
@@ -905,4 +889,53 @@ func TestPrecompileSweep(t *testing.T) {
 		}
 	}
 	h.SetExhaustive("C09", "presweep")
+}
+
+// ---------------------------------------------------------------------------------------
+// leg 3: repeated execution of blocks of undecodable transactions (oracle iii under load)
+
+func TestVerdictRace(t *testing.T) {
+	defer stopWorker()
+	var rc Case
+	if h.ReplayCase("C09", "verdictrace", &rc) {
+		replayPlain(t, rc)
+		return
+	}
+	if h.Replaying() {
+		t.Skip("replay file is for another leg")
+	}
+	shard, _ := strconv.Atoi(os.Getenv("VERIF_SHARD"))
+	iters := 150
+	if h.Tier() == "thorough" {
+		iters = 4000
+	}
+	p := h.NewPlain(t, "C09", "verdictrace")
+	routines := []int{16, 8, 2, 1}
+	for k := 0; k < 2; k++ {
+		c := Case{Routines: routines[(shard+2*k)%len(routines)], Stress: &StressSpec{Kind: []string{"undecodable", "unsigned"}[k], Txs: 300, Iters: iters}}
+		if !p.Case(c, func(x *h.Ctx) { runCase(c, x) }) {
+			return
+		}
+	}
+}
+
+// replayPlain replays one case of an enumeration leg with the output protocol of h.Check's
+// replay mode (the driver parses REPLAY-KNOWN / REPLAY-VIOLATION lines).
+func replayPlain(t *testing.T, rc Case) {
+	res, d, err := runInWorker(rc)
+	if err != nil {
+		harnessFatal(err.Error())
+	}
+	if d != nil {
+		res.Fails = []Fail{{Sig: d.sig, Msg: d.msg}}
+	}
+	for _, f := range res.Fails {
+		msg := strings.ReplaceAll(f.Msg, "\n", " | ")
+		if h.IsKnownFor("C09", f.Sig) {
+			fmt.Printf("REPLAY-KNOWN sig=%s msg=%s\n", f.Sig, clip(msg, 500))
+			continue
+		}
+		fmt.Printf("REPLAY-VIOLATION sig=%s msg=%s\n", f.Sig, clip(msg, 500))
+		t.Fatalf("replayed case violates C09: [%s] %s", f.Sig, f.Msg)
+	}
 }
